@@ -273,8 +273,16 @@ def generate(table, pred, tier="quick"):
                 if pk in ("mutation", "finalization"):
                     order = ["binder", "erased", "other", "outer", "static"]
                     bk = min(bk, cp["refKind"], key=order.index)
+                # a context type whose brand can be *lengthened* by subtyping (contra- / bivariant)
+                # lets `&Mutation<'gc>` pass for `&Mutation<'static>`: whatever is allocated from it
+                # is `'static`-branded
+                ctx_name = "Finalization" if sh["ctx"] == "Finalization" else "Mutation"
+                cv = adt_pred.get(ctx_name, {}).get("ltVariance", [])
+                ctx_flexes = bool(cv) and cv[0][1] in ("contra", "bi")
+                if ctx_flexes and pk not in ("mutation", "finalization"):
+                    bk = "static"
                 if kind == "ret":
-                    rej = cp["ok"] or (pk in ("mutation", "finalization") and cp["refKind"] in ("binder", "erased"))
+                    rej = (cp["ok"] and not (ctx_flexes and pk not in ("mutation", "finalization"))) or (pk in ("mutation", "finalization") and cp["refKind"] in ("binder", "erased"))
                     why = f"callbacks_higher_ranked: {cb['name']}.ok={cp['ok']} (retOk={cp['retOk']})"
                     allow = ["region", "type"]
                 elif kind in ("outer", "refcell"):
@@ -537,11 +545,16 @@ def generate(table, pred, tier="quick"):
                 why="builder row for a type client code cannot name", src="fn main() {}\n")
             continue
 
-        def inst(t0, a=a, row=row):
+        prow = next((q for q in a["tys"] if q["name"] == row["param"]), None)
+        if prow is None or any(b not in ("Collect", "Sized", "Copy", "Clone", "Default") for b in prow["bounds"]):
+            continue   # the parameter cannot be instantiated by a plain reference type: no coercion probe
+        wrap_root = "Rootable" in prow["bounds"]
+
+        def inst(t0, a=a, row=row, wrap_root=wrap_root):
             args = ["'g"] * len(a["lts"])
             for q in a["tys"]:
                 if q["name"] == row["param"]:
-                    args.append(t0)
+                    args.append(f"gc_arena::Rootable![{t0}]" if wrap_root else t0)
                 elif q["hasDefault"]:
                     break
                 else:
